@@ -30,7 +30,9 @@ package aa
 //@   loop 2 invariant true
 
 // Resolve: every preamble rule that is not a variable is kept, no rule is invented, every
-// definition is kept, a second definition of a name is an error, nothing panics.
+// definition is kept, an append (+=) to a name with no earlier definition is kept (it
+// extends a variable of an include), a second definition of a name is an error, nothing panics;
+// a profile without attachments gets none (no value leaks from one profile to the next).
 //@ func (*AppArmorProfileFile).Resolve
 //@   opt prop=C13
 //@   requires forall(k, 0, len(f.Profiles), f.Profiles[k] != nil)
@@ -41,12 +43,17 @@ package aa
 //@   loop 1 invariant forall_ref(x, imp(mem(preamble, x), mem(old(f.Preamble)[:iter(1)], x)))
 //@   loop 1 invariant forall(k, 0, iter(1), imp((typeIs(old(f.Preamble)[k], "*Variable") && as(old(f.Preamble)[k], "*Variable").Define), mem(preamble, old(f.Preamble)[k]) && has(seen, as(old(f.Preamble)[k], "*Variable").Name)))
 //@   loop 1 invariant forall(j, 0, iter(1), forall(i, 0, j, imp((typeIs(old(f.Preamble)[i], "*Variable") && as(old(f.Preamble)[i], "*Variable").Define) && (typeIs(old(f.Preamble)[j], "*Variable") && as(old(f.Preamble)[j], "*Variable").Define), as(old(f.Preamble)[i], "*Variable").Name != as(old(f.Preamble)[j], "*Variable").Name)))
+//@   loop 1 invariant forall_str(x, imp(has(seen, x), exists(i, 0, iter(1), (typeIs(old(f.Preamble)[i], "*Variable") && as(old(f.Preamble)[i], "*Variable").Define) && as(old(f.Preamble)[i], "*Variable").Name == x)))
+//@   loop 1 invariant forall(k, 0, iter(1), imp(typeIs(old(f.Preamble)[k], "*Variable") && !as(old(f.Preamble)[k], "*Variable").Define && !exists(i, 0, k, (typeIs(old(f.Preamble)[i], "*Variable") && as(old(f.Preamble)[i], "*Variable").Define) && as(old(f.Preamble)[i], "*Variable").Name == as(old(f.Preamble)[k], "*Variable").Name), mem(preamble, old(f.Preamble)[k])))
 //@   loop 1 decreases len(old(f.Preamble)) - iter(1)
 //@   loop 2 invariant true
 //@   loop 3 invariant true
-//@   loop 4 invariant true
-//@   loop 5 invariant true
+//@   loop 4 invariant forall(k, 0, len(f.Profiles), imp(len(old(f.Profiles[k].Attachments)) == 0, len(f.Profiles[k].Attachments) == 0))
+//@   loop 5 invariant forall(k, 0, len(f.Profiles), imp(len(old(f.Profiles[k].Attachments)) == 0, len(f.Profiles[k].Attachments) == 0))
+//@   loop 5 invariant imp(len(old(profile.Attachments)) == 0, len(attachments) == 0)
 //@   ensures imp(result == nil, forall(k, 0, len(old(f.Preamble)), imp(!typeIs(old(f.Preamble)[k], "*Variable"), mem(f.Preamble, old(f.Preamble)[k]))))
 //@   ensures imp(result == nil, forall_ref(x, imp(mem(f.Preamble, x), mem(old(f.Preamble), x))))
 //@   ensures imp(result == nil, forall(k, 0, len(old(f.Preamble)), imp((typeIs(old(f.Preamble)[k], "*Variable") && as(old(f.Preamble)[k], "*Variable").Define), mem(f.Preamble, old(f.Preamble)[k]))))
 //@   ensures imp(result == nil, forall(j, 0, len(old(f.Preamble)), forall(i, 0, j, imp((typeIs(old(f.Preamble)[i], "*Variable") && as(old(f.Preamble)[i], "*Variable").Define) && (typeIs(old(f.Preamble)[j], "*Variable") && as(old(f.Preamble)[j], "*Variable").Define), as(old(f.Preamble)[i], "*Variable").Name != as(old(f.Preamble)[j], "*Variable").Name))))
+//@   ensures imp(result == nil, forall(k, 0, len(old(f.Preamble)), imp(typeIs(old(f.Preamble)[k], "*Variable") && !as(old(f.Preamble)[k], "*Variable").Define && !exists(i, 0, k, (typeIs(old(f.Preamble)[i], "*Variable") && as(old(f.Preamble)[i], "*Variable").Define) && as(old(f.Preamble)[i], "*Variable").Name == as(old(f.Preamble)[k], "*Variable").Name), mem(f.Preamble, old(f.Preamble)[k]))))
+//@   ensures imp(result == nil, forall(k, 0, len(f.Profiles), imp(len(old(f.Profiles[k].Attachments)) == 0, len(f.Profiles[k].Attachments) == 0)))
